@@ -179,6 +179,7 @@ type JobResult struct {
 	Children [][]int `json:"children"`
 	Err      string  `json:"err"`
 	Capped   bool    `json:"capped"`
+	WasFull  bool    `json:"was_full"` // the job explored subtrees itself (its children are handed-back remainders)
 	Sample   *Sample `json:"sample,omitempty"`
 }
 
@@ -192,18 +193,19 @@ type Sample struct {
 }
 
 type walker struct {
-	sc      *Scenario
-	bound   int
-	prune   bool
-	maxExec int
-	stats   *Stats
-	found   []Found
-	seen    map[uint64]int // state key -> max remaining budget with which it was expanded
-	states  map[uint64]struct{}
-	keys    map[string]bool
-	capped  bool
-	sample  *Sample
-	err     string
+	sc       *Scenario
+	bound    int
+	prune    bool
+	maxExec  int
+	stats    *Stats
+	found    []Found
+	seen     map[uint64]int // state key -> max remaining budget with which it was expanded
+	states   map[uint64]struct{}
+	keys     map[string]bool
+	capped   bool
+	deferred [][]int
+	sample   *Sample
+	err      string
 }
 
 func prefixCost(x *Exec, n int) int {
@@ -248,8 +250,9 @@ func (w *walker) record(x *Exec) {
 
 // explore runs prefix and recursively all extensions within the bound. splitOnly: run once and return children.
 func (w *walker) explore(prefix []int, sigs []uint64, splitOnly bool) (children [][]int) {
-	if w.maxExec > 0 && w.stats.Executions >= w.maxExec {
-		w.capped = true
+	if w.maxExec > 0 && w.stats.Executions >= w.maxExec && !splitOnly {
+		// job budget used up: hand the unexplored subtree back to the coordinator as a job of its own (nothing is dropped)
+		w.deferred = append(w.deferred, append([]int(nil), prefix...))
 		return nil
 	}
 	x, err := RunOnce(w.sc, prefix, sigs, false)
@@ -393,12 +396,17 @@ func runJob(cfg *Config, job *Job) (res JobResult) {
 	}()
 	w := &walker{sc: sc, bound: job.Bound, prune: job.Prune, maxExec: job.MaxExec, stats: newStats(), seen: map[uint64]int{}, states: map[uint64]struct{}{}, keys: map[string]bool{}}
 	children := w.explore(job.Prefix, nil, job.Split)
+	children = append(children, w.deferred...)
 	w.stats.States = len(w.states)
-	return JobResult{Stats: w.stats, Found: w.found, Children: children, Err: w.err, Capped: w.capped, Sample: w.sample}
+	return JobResult{Stats: w.stats, Found: w.found, Children: children, Err: w.err, Capped: w.capped, Sample: w.sample, WasFull: !job.Split}
 }
 
 // jobWatchdog bounds one job; a job is a subtree of executions, normally well under a minute.
-var jobWatchdog = 4 * time.Minute
+var jobWatchdog = 6 * time.Minute
+
+// jobMaxExec bounds the executions of one job; the unexplored remainder is handed back to the coordinator as new jobs
+// (load balancing, and the watchdog stays a hang detector).
+var jobMaxExec = 20000
 
 type workerProc struct {
 	cmd *exec.Cmd
@@ -555,7 +563,7 @@ func coordinate(cfg *Config) int {
 		scExh := true
 		var mu sync.Mutex
 		var wg sync.WaitGroup
-		queue := []Job{{Scenario: sc.Name, Prefix: []int{}, Bound: bound, Split: true, Prune: prune}}
+		queue := []Job{{Scenario: sc.Name, Prefix: []int{}, Bound: bound, Split: true, Prune: prune, MaxExec: jobMaxExec}}
 		pending := 0
 		cond := sync.NewCond(&mu)
 		var scFound []Found
@@ -598,7 +606,7 @@ func coordinate(cfg *Config) int {
 			}
 			scFound = append(scFound, res.Found...)
 			for _, c := range res.Children {
-				queue = append(queue, Job{Scenario: sc.Name, Prefix: c, Bound: bound, Split: len(c) > 0 && depthOf(c) < splitDepth, Prune: prune})
+				queue = append(queue, Job{Scenario: sc.Name, Prefix: c, Bound: bound, Split: !res.WasFull && len(c) > 0 && depthOf(c) < splitDepth, Prune: prune, MaxExec: jobMaxExec})
 			}
 			pending--
 			cond.Broadcast()
